@@ -221,6 +221,7 @@ Proof.
   - apply Inv_close, I.
   - apply Inv_event, I.
   - apply Inv_tick, I.
+  - exact I.
 Qed.
 
 Lemma Inv_run_from : forall ops st, Inv st -> Inv (run_from st ops).
@@ -339,7 +340,7 @@ Proof.
   intros a s1 s2 o [Hni Hns Hsub Hrs Hinf Hcl].
   destruct s1 as [ni1 inf1 ns1 sub1 rs1 cl1], s2 as [ni2 inf2 ns2 sub2 rs2 cl2].
   simpl in Hni, Hns, Hsub, Hrs, Hinf, Hcl. subst ni2 ns2.
-  destruct o as [r | s h own | s | s | r k o | s h]; unfold step; cbn [st_ninf st_inf st_nsub st_sub st_rs st_closed].
+  destruct o as [r|s h own|s|s|r k o|s h|ru]; unfold step; cbn [st_ninf st_inf st_nsub st_sub st_rs st_closed].
   - (* Subscribe *)
     rewrite (Hrs r). destruct (rs_cur (rs2 r)) as [i|]; cbn [r_st r_out r_panic].
     + split; [|split; reflexivity].
@@ -422,6 +423,9 @@ Proof.
         reflexivity.
     + split; [|split; reflexivity].
       constructor; cbn [st_ninf st_inf st_nsub st_sub st_rs st_closed]; auto.
+  - (* SubscribeUnknown *)
+    cbn [r_st r_out r_panic]. split; [|split; reflexivity].
+    constructor; cbn [st_ninf st_inf st_nsub st_sub st_rs st_closed]; auto.
 Qed.
 
 (* ---- Lemma B: the left side alone does an erased operation ---- *)
@@ -433,7 +437,7 @@ Proof.
   intros a s1 s2 o Ho [Hni Hns Hsub Hrs Hinf Hcl].
   destruct s1 as [ni1 inf1 ns1 sub1 rs1 cl1], s2 as [ni2 inf2 ns2 sub2 rs2 cl2].
   simpl in Hni, Hns, Hsub, Hrs, Hinf, Hcl. subst ni2 ns2.
-  destruct o as [r | s h own | s | s | r k o | s h]; simpl in Ho; try discriminate Ho;
+  destruct o as [r|s h own|s|s|r k o|s h|ru]; simpl in Ho; try discriminate Ho;
     apply Nat.eqb_eq in Ho; subst s;
     unfold step; cbn [st_ninf st_inf st_nsub st_sub st_rs st_closed].
   - (* AddHandler a *)
@@ -772,6 +776,7 @@ Proof.
   - apply Link_close; assumption.
   - apply Link_event; assumption.
   - apply Link_tick; assumption.
+  - exact L.
 Qed.
 
 Lemma Link_run_from : forall ops tr st, Inv st -> Link tr st -> Link (track_from tr ops) (run_from st ops).
@@ -866,7 +871,7 @@ Qed.
 
 Lemma NoEnt_step : forall st s o, mentions_add s o = false -> NoEnt s st -> NoEnt s (r_st (step st o)).
 Proof.
-  intros st s o Hm N. unfold NoEnt. destruct o as [r|s0 h own|s0|s0|r k o|s0 h]; simpl in *.
+  intros st s o Hm N. unfold NoEnt. destruct o as [r|s0 h own|s0|s0|r k o|s0 h|ru]; simpl in *.
   - destruct (rs_cur (st_rs st r)); simpl; intros i0 e He.
     + exact (N _ _ He).
     + unfold upd in He. destruct (Nat.eqb_spec i0 (st_ninf st)); simpl in He; [contradiction|].
@@ -892,12 +897,13 @@ Proof.
     + subst i0. exact (N _ _ He).
     + exact (N _ _ He).
   - destruct (st_sub st s0); exact N.
+  - exact N.
 Qed.
 
 Lemma NoEnt_out : forall st s o, mentions_add s o = false -> NoEnt s st ->
   filter (to_sub s) (r_out (step st o)) = [].
 Proof.
-  intros st s o Hm N. destruct o as [r|s0 h own|s0|s0|r k o|s0 h]; simpl in *.
+  intros st s o Hm N. destruct o as [r|s0 h own|s0|s0|r k o|s0 h|ru]; simpl in *.
   - destruct (rs_cur (st_rs st r)); reflexivity.
   - destruct (st_sub st s0) as [i|]; simpl; [|reflexivity].
     apply filter_replay_other. apply Nat.eqb_neq. exact Hm.
@@ -914,6 +920,7 @@ Proof.
     + subst s0. rewrite has_own_none; [reflexivity|]. intros e He. exact (N _ _ He).
     + destruct (has_own s0 h (i_hs (st_inf st i))); [|reflexivity].
       apply filter_replay_other. exact E.
+  - reflexivity.
 Qed.
 
 Lemma nothing_from : forall s ops st,
@@ -1101,7 +1108,7 @@ Lemma WLink_step : forall tr st o, Inv st -> WLink tr st ->
    WLink (track_step tr o) (r_st (step st o)) /\ r_panic (step st o) = false.
 Proof.
   intros tr st o I W. pose proof W as W0. destruct W as [Wn Wi Wd Wr Wl Wc Wf].
-  destruct o as [r|s h own|s|s|r k o|s h].
+  destruct o as [r|s h own|s|s|r k o|s h|ru].
   - (* Subscribe *)
     assert (Hids : forall p, In p (t_open tr ++ [(t_nsub tr, r)]) -> fst p < S (t_nsub tr)).
     { intros p Hp. apply in_app_iff in Hp. destruct Hp as [Hp|[Hp|[]]];
@@ -1224,6 +1231,8 @@ Proof.
   - (* Tick *)
     simpl. destruct (st_sub st s) as [i|] eqn:Hs; simpl; (split; [|reflexivity]);
       constructor; simpl; assumption.
+  - (* SubscribeUnknown *)
+    simpl. split; [|reflexivity]. constructor; simpl; assumption.
 Qed.
 
 Lemma WLink_run_from : forall ops tr st, Inv st -> WLink tr st ->
@@ -1349,18 +1358,19 @@ Qed.
 (* a pair that left the open list never comes back *)
 Lemma t_nsub_mono_step : forall tr o, t_nsub tr <= t_nsub (track_step tr o).
 Proof.
-  intros tr o. destruct o as [x|s h own|s|s|x k o|s h]; simpl; try lia.
+  intros tr o. destruct o as [x|s h own|s|s|x k o|s h|ru]; simpl; try lia.
   unfold track_step. destruct (s <? t_nsub tr); simpl; lia.
 Qed.
 
 Lemma open_step_back : forall tr o b r, b < t_nsub tr ->
   In (b, r) (t_open (track_step tr o)) -> In (b, r) (t_open tr).
 Proof.
-  intros tr o b r Hlt H. destruct o as [x|s h own|s|s|x k o|s h].
+  intros tr o b r Hlt H. destruct o as [x|s h own|s|s|x k o|s h|ru].
   - simpl in H. apply in_app_iff in H. destruct H as [H|[H|[]]]; [assumption|]. inversion H; lia.
   - unfold track_step in H. destruct (s <? t_nsub tr); exact H.
   - exact H.
   - simpl in H. apply filter_In in H. apply H.
+  - exact H.
   - exact H.
   - exact H.
 Qed.
@@ -1382,7 +1392,7 @@ Proof.
   Ltac updi := unfold upd;
     match goal with |- context [Nat.eqb ?x ?y] => destruct (Nat.eqb_spec x y) end;
     try subst; reflexivity.
-  destruct o as [x|s h own|s|s|x k o|s h]; simpl.
+  destruct o as [x|s h own|s|s|x k o|s h|ru]; simpl.
   - destruct (rs_cur (st_rs st x)) as [j|]; simpl; split;
       try (rewrite upd_other by lia); try assumption; reflexivity.
   - destruct (st_sub st s) as [j|]; simpl; (split; [assumption|]); [updi|reflexivity].
@@ -1393,6 +1403,7 @@ Proof.
     destruct (i_stopped (st_inf st j)); simpl; (split; [assumption|]); [reflexivity|updi].
   - destruct (rs_cur (st_rs st x)) as [j|]; simpl; (split; [assumption|]); [updi|reflexivity].
   - destruct (st_sub st s) as [j|]; simpl; (split; [assumption|reflexivity]).
+  - split; [assumption|reflexivity].
 Qed.
 
 (* sl (where a has been closed) and sr (where a has not been closed yet when d = true) agree on
@@ -1433,7 +1444,7 @@ Proof.
     repeat match goal with H : _ <> _ |- _ => learn (Href _ H) end;
     repeat match goal with H : _ <> _ |- _ => learn (Hcl _ H) end;
     first [reflexivity | assumption | congruence | lia].
-  destruct o as [x|s h own|s|s|x k o|s h]; simpl.
+  destruct o as [x|s h own|s|s|x k o|s h|ru]; simpl.
   - (* Subscribe *)
     rewrite <- Hcur. destruct (rs_cur (st_rs sl x)) as [i|] eqn:Hc; simpl;
       exists d; (split; [|reflexivity]).
@@ -1503,6 +1514,8 @@ Proof.
     rewrite <- Hsub. destruct (st_sub sl s) as [i|] eqn:Hs; simpl; exists d;
       [|split; [exact R0|reflexivity]].
     split; [exact R0|rewrite ?Hinf; reflexivity].
+  - (* SubscribeUnknown *)
+    exists d. split; [exact R0|reflexivity].
 Qed.
 
 Lemma RefSim_run : forall a r b ops d trL sl sr,
@@ -1701,3 +1714,20 @@ Proof.
     apply in_or_app. right. left. reflexivity.
 Qed.
 End Atomic.
+
+(* ================================================================== *)
+(* a failed Resource() call (resource unknown to discovery) changes nothing *)
+(* ================================================================== *)
+Module Unknown.
+Theorem failed_subscribe_noop : forall ops1 ops2 r,
+  step (run ops1) (SubscribeUnknown r) = mkRes (run ops1) [] false /\
+  run (ops1 ++ SubscribeUnknown r :: ops2) = run (ops1 ++ ops2) /\
+  outs (ops1 ++ SubscribeUnknown r :: ops2) = outs (ops1 ++ ops2) /\
+  track (ops1 ++ SubscribeUnknown r :: ops2) = track (ops1 ++ ops2).
+Proof.
+  intros ops1 ops2 r. split; [reflexivity|]. split; [|split].
+  - rewrite !run_app. reflexivity.
+  - unfold outs. rewrite !outs_from_app. reflexivity.
+  - unfold track. rewrite !track_from_app. reflexivity.
+Qed.
+End Unknown.
